@@ -779,6 +779,7 @@ main(int argc, char *argv[])
 		int nb = ex.thorough ? NBIND : NBIND_QUICK;
 		struct itimerval zt = {{0, 0}, {0, 0}};
 		setitimer(ITIMER_REAL, &zt, NULL);
+		setitimer(ITIMER_VIRTUAL, &zt, NULL);
 		for (int k = 0; k < nb; k++, slice++) {
 			if (ex_mine(slice) && !ex_expired() && binds[k].bday < NBDAY) {
 				do_bind(k);
